@@ -86,6 +86,8 @@ def universe() -> List[Tuple[str, V]]:
         ("Iterator[TypedDict]", gen("Iterator", td1)), ("Generator[TypedDict, None, int]", gen("Generator", td1, NONE_T, INT)),
         ("class nested three levels deep in another module", C("pkg.other", "Outer.Deep.Deeper")), ("List[class nested three levels deep in another module]", gen("List", C("pkg.other", "Outer.Deep.Deeper"))),
         ("own class nested three levels deep", C(MOD, "Outer.Inner.Core")),
+        ("Tuple[Tuple[TypedDict a, TypedDict b], Tuple[TypedDict c, TypedDict d]]",
+         gen("Tuple", gen("Tuple", anon_td({"a": INT}), anon_td({"b": STR})), gen("Tuple", anon_td({"c": INT}), anon_td({"d": NONE_T})))),
         # user classes that merely share their name with a typing alias
         ("class of another module named List", C("pkg.other", "List")), ("own class named Set", C(MOD, "Set")),
         ("Dict[str, class named Union]", gen("Dict", STR, C("pkg.other", "Union"))),
@@ -263,6 +265,24 @@ def pipeline(repo: Repo, label: str, typ: V, policy: Optional[Dict[str, str]] = 
     return True, "", sites
 
 
+def _duplicate_generated_classes(repo: Repo, typ: V) -> Optional[str]:
+    """name of a class that ReplaceTypedDictsWithStubs generates twice, with different fields, for one position"""
+    k, res = AM.replace_typed_dicts(repo, typ, "foo")
+    if k != "return":
+        return None
+    seen: Dict[str, str] = {}
+    for st_ in res.v[1].fields["items"]:
+        name = st_.fields.get("name") if isinstance(st_, R) else None
+        if name is None:
+            continue
+        body = repr(st_.fields.get("attribute_stubs"))
+        nm = str(getattr(name, "v", name))
+        if nm in seen and seen[nm] != body:
+            return nm.split("(")[0]
+        seen.setdefault(nm, body)
+    return None
+
+
 REPLACE_SITES = {"'typing.'": "RenderAnnotation.rewrite `.replace('typing.', '')`", "'NoneType'": "RenderAnnotation.rewrite `.replace('NoneType', 'None')`",
                  "module + '.'": "FunctionStub.render `s.replace(module + '.', '')`"}
 
@@ -318,6 +338,12 @@ def rule_pipeline(ctx: Ctx, repo: Repo) -> None:
             ctx.violate("R-C11.3", f"{ST}.build_module_stubs", "names used by the fields of a generated TypedDict class are neither imported nor stripped",
                         "the fields of generated TypedDict classes are rendered with module-qualified names and typing names that the stub's import block does not provide",
                         example=f"{label}: {why}")
+        elif _duplicate_generated_classes(repo, typ):
+            dup = _duplicate_generated_classes(repo, typ)
+            ctx.violate("R-C11.3", f"{ST}.ReplaceTypedDictsWithStubs._rewrite_container", "two different generated TypedDict classes of one stub get the same name",
+                        "the class name of a generated TypedDict is the hint plus the argument index of each enclosing container, with nothing for index 0: positions (0, 1) and (1, 0) both "
+                        "become `<hint>2`; the later class definition shadows the earlier one and an annotation denotes the wrong TypedDict",
+                        example=f"{label}: class {dup} is defined twice with different fields; {why}"[:400])
         elif label == "same-named classes of utils and my.utils":
             ctx.violate("R-C11.3", f"{ST}.get_imports_for_annotation", "same-named classes of different modules are imported under one name",
                         "two classes with the same name from different modules are both imported as that bare name, so one annotation denotes the wrong class",
